@@ -49,8 +49,10 @@ func OverlappingTables(tables []TableMeta, kr KeyRange) (int, int) {
 	left := sort.Search(len(tables), func(i int) bool {
 		return utils.CompareKeys(kr.Left, tables[i].MaxKey) <= 0
 	})
+	// The first table that starts after kr ends; a table that merely extends beyond
+	// kr.Right still overlaps kr and must be included.
 	right := sort.Search(len(tables), func(i int) bool {
-		return utils.CompareKeys(kr.Right, tables[i].MaxKey) < 0
+		return utils.CompareKeys(kr.Right, tables[i].MinKey) < 0
 	})
 	return left, right
 }
